@@ -51,7 +51,11 @@ def check(repo: Repo, rep: Report) -> None:
     lookup = [s for s in sites(on_next) if isinstance(s.node, ast.Assign) and isinstance(s.node.targets[0], ast.Name) and isinstance(s.node.value, ast.Call)
               and isinstance(s.node.value.func, ast.Attribute) and s.node.value.func.attr == "get" and isinstance(s.node.value.func.value, ast.Name)
               and [u(a_) for a_ in s.node.value.args] == [key]]
-    rep.require(len(lookup) == 1, "group_by_until: writer = writers.get(key)")
+    if len(lookup) != 1:
+        rep.ob("G1-single-delivery", on_next, "the group of an element is looked up in the map of live groups on every element", False,
+               "group_by_until does not decide the element's group by ONE lookup of its key in the map of live groups (a cached / second "
+               "source of truth): after a group expired, elements of that key reach the completed subject and are lost, or a second live group appears")
+        return
     writer = lookup[0].node.targets[0].id
     writers = lookup[0].node.value.func.value.id
     deliver = [s for s in sites(on_next) if isinstance(s.node, ast.Call) and isinstance(s.node.func, ast.Attribute) and s.node.func.attr == "on_next"
